@@ -37,6 +37,12 @@ for _c in ('BufferReader', 'PedanticBufferReader'):
     FALLBACK_BUF[_c + '_Ensure'] = 'SIf (CLt (ESub ESize EIndex) (EParam 0)) (SRetErr gen_ErrorStatus_ReadLimitReached) SRetOk'
     FALLBACK_BUF[_c + '_ReadN'] = BUF_READN
     FALLBACK_BUF[_c + '_Skip'] = 'SIf (CGt (EParam 0) (ESub ESize EIndex)) (SRetErr gen_ErrorStatus_ReadLimitReached) (SAddIndex (EParam 0) SRetOk)'
+# BufferWriter / PedanticBufferWriter / ConstexprBufferWriter: the capacity check every Write is predicated on
+WRITER_CLASSES = (('BufferWriter', 'buffer_writer.h'), ('PedanticBufferWriter', 'pedantic_buffer_writer.h'),
+                  ('ConstexprBufferWriter', 'constexpr_buffer_writer.h'))
+FALLBACK_WR = {}
+for _c, _h in WRITER_CLASSES:
+    FALLBACK_WR[_c + '_Prepare'] = 'SIf (CGt (EParam 0) (ESub ESize EIndex)) (SRetErr gen_ErrorStatus_WriteLimitReached) SRetOk'
 
 
 class Unsupported(Exception):
@@ -375,11 +381,27 @@ def translate():
             except (Unsupported, KeyError, IndexError, TypeError) as e:
                 degraded.append('%s: %s' % (key, e))
         defs[cls + '_Read1_delegates'] = 'true' if deleg else 'false'
-    for key in FALLBACK_BUF:
+    for cls, header in WRITER_CLASSES:
+        try:
+            ms = methods(load(cls, header))
+        except Exception as e:
+            ms = []
+            degraded.append('%s: %s' % (cls, e))
+        Tr.accessors = {}
+        for m in ms:
+            key = '%s_Prepare' % cls
+            if m['name'] != 'Prepare' or key in defs:
+                continue
+            try:
+                body = [c for c in m['inner'] if c.get('kind') == 'CompoundStmt'][0]
+                defs[key] = Tr(m, '-').stmts([body])
+            except (Unsupported, KeyError, IndexError, TypeError) as e:
+                degraded.append('%s: %s' % (key, e))
+    for key in list(FALLBACK_BUF) + list(FALLBACK_WR):
         if key not in defs:
             if not any(d.startswith(key) for d in degraded):
                 degraded.append('%s: method not found' % key)
-            defs[key] = FALLBACK_BUF[key]
+            defs[key] = {**FALLBACK_BUF, **FALLBACK_WR}[key]
     for key in FALLBACK:
         if key not in defs:
             if not any(d.startswith(key) for d in degraded):
@@ -398,7 +420,7 @@ def write(path):
         out.append('Definition gen_%s : bstmt :=%s\n  %s.' % (key, mark, defs[key]))
     for cls in ('BufferReader', 'PedanticBufferReader'):
         out.append('Definition gen_%s_Read1_delegates : bool := %s.   (* Read(uint8_t* byte) { return Read(byte, byte + 1); } *)' % (cls, defs[cls + '_Read1_delegates']))
-    for key in FALLBACK:
+    for key in list(FALLBACK) + list(FALLBACK_WR):
         mark = '   (* degraded: outside the translated subset, defined by the pinned source\'s term *)' if any(d.startswith(key) for d in degraded) else ''
         out.append('Definition gen_%s : bstmt :=%s\n  %s.' % (key, mark, defs[key]))
     txt = '\n'.join(out) + '\n'
@@ -411,6 +433,6 @@ def write(path):
 
 if __name__ == '__main__':
     d, g = translate()
-    for k in list(FALLBACK) + list(FALLBACK_BUF) + ['BufferReader_Read1_delegates', 'PedanticBufferReader_Read1_delegates']:
+    for k in list(FALLBACK) + list(FALLBACK_BUF) + list(FALLBACK_WR) + ['BufferReader_Read1_delegates', 'PedanticBufferReader_Read1_delegates']:
         print(k, '=', d[k])
     print('degraded:', g or 'none')
